@@ -32,9 +32,9 @@ def skeletons(tier, seed):
     d2 = [(p, [a, b], body, bc, pay) for p in PREFIX for a in OPENERS for b in OPENERS for (body, bc, pay) in INNER]
     d3 = [(p, [a, b, c], body, bc, pay) for p in PREFIX[:2] for a in OPENERS for b in OPENERS for c in OPENERS for (body, bc, pay) in INNER]
     # every depth-2 chain whose innermost body is empty or a single filler (a lone opener / element as the last item)
-    out += [("", [a, b], body, bc, pay) for a in OPENERS for b in OPENERS for (body, bc, pay) in INNER[:2]]
+    out += [("", [a, b], body, bc, pay) for a in OPENERS for b in OPENERS for (body, bc, pay) in (INNER[1:2] if tier == 'quick' else INNER[:2])]
     if tier == "quick":
-        out += rnd.sample(d2, 120) + rnd.sample(d3, 40)
+        out += rnd.sample(d2, 80) + rnd.sample(d3, 30)
     else:
         out += d2[:0] + rnd.sample(d2, 1500) + rnd.sample(d3, 1200)
         d4 = [("", [a, b, c, d], body, bc, pay) for a in OPENERS for b in OPENERS for c in OPENERS for d in OPENERS for (body, bc, pay) in INNER[:6]]
